@@ -210,6 +210,7 @@ class real_eval_macro(Macro):
     def eval(self, goal, prevs):
         assert len(prevs) == 0, "real_eval_macro: no conditions expected"
         assert goal.is_equals(), "real_eval_macro: goal must be an equality"
+        assert goal.lhs.get_type() == RealType, "real_eval_macro: goal must be about real numbers"
         assert real_eval(goal.lhs) == real_eval(goal.rhs), "real_eval_macro: two sides are not equal"
 
         return Thm(goal)
@@ -878,6 +879,9 @@ class RealEqMacro(Macro):
         if len(goal.get_vars()) != 0:
             raise ConvException
         try:
+            # real_eval does not look at types (it subtracts without truncation)
+            if not (goal.is_binop() and goal.arg1.get_type() == RealType):
+                raise ConvException
             if goal.is_equals():
                 if real_eval(goal.lhs) == real_eval(goal.rhs):
                     return Thm(Eq(goal, true))
@@ -995,6 +999,7 @@ class RealCompareMacro(Macro):
 
     def eval(self, goal, prevs=[]):
         assert goal.is_compares(), "real_compare_macro: Should be an inequality term"
+        assert goal.arg1.get_type() == RealType, "real_compare_macro: Should compare real numbers"
         lhs, rhs = real_eval(goal.arg1), real_eval(goal.arg)
         if goal.is_less():
             assert lhs < rhs, "%f !< %f" % (lhs, rhs)
